@@ -61,6 +61,11 @@ class Session(object):
         self.values = {}                     # name -> values accepted for a field of that name
         self.max_handles = max_handles
         self.counts = {}
+        # set when add_field / a call overflowed the stack (known finding: a scope whose values come from different
+        # branches): the field tree is left half-built, whatever the object does afterwards is undefined - and
+        # differs between equally good implementations (a recursive layout overflows too, an iterative one returns
+        # nonsense) - so the session ends there; the failing call itself is judged
+        self.dead = False
 
     def _n(self, k):
         self.counts[k] = self.counts.get(k, 0) + 1
@@ -68,7 +73,7 @@ class Session(object):
     # ---------------------------------------------------------------- operations
     def add(self, scope, name, length=None, start=None, tags=(), tagform=0):
         h = self.handles.get(skey(scope))
-        if h is None:
+        if h is None or self.dead:
             return None
         self.ops.append(["add", dict(scope), name, length, start, list(tags), tagform])
         if name not in self.names:
@@ -84,12 +89,13 @@ class Session(object):
         except Exception as ex:
             res = type(ex).__name__
             self._n("add raised " + res)
+            self.dead = self.dead or isinstance(ex, RecursionError)
         self.ev.append(["add", enc_scope(scope), name, opt(length), opt(start), list(tags), res])
         return res
 
     def call(self, scope, newvals, record_op=True):
         h = self.handles.get(skey(scope))
-        if h is None:
+        if h is None or self.dead:
             return None
         if record_op:
             self.ops.append(["call", dict(scope), dict(newvals)])
@@ -99,6 +105,7 @@ class Session(object):
         except Exception as ex:
             res = type(ex).__name__
             self._n("call raised " + res)
+            self.dead = self.dead or isinstance(ex, RecursionError)
         self.ev.append(["call", enc_scope(scope), enc_scope(newvals), res])
         if res != "ok":
             return None
@@ -112,6 +119,8 @@ class Session(object):
         return merged
 
     def assign(self, scope=None):
+        if self.dead:
+            return None
         h = self.handles.get(skey(scope or {}), self.root)
         self.ops.append(["assign", dict(scope or {})])
         try:
